@@ -52,7 +52,7 @@ def declare(U):
     U.fn("x_consume", pre_call=buffer(), requires=BUFOK + [VALID, "$1 != 0"], assigns=["*$0"], ensures=dict(CUR_OK,
          consume_advances_by_one_exactly_when_the_byte_matches="IMP(__verif_exc == 0, *$0 == OLD(*$0) + 1 && OLD(**$0) == $1) && IMP(__verif_exc != 0, *$0 == OLD(*$0) && __verif_exc == %s)" % EXC))
     word = "  char the_word[4]; the_word[0] = nondet_char(); the_word[1] = nondet_char(); the_word[2] = nondet_char(); the_word[3] = 0; p_word = the_word;\n"
-    U.fn("x_consume_word", pre_call=buffer() + word, arrays={"word": 4}, ptr_requires=False,
+    U.fn("x_consume_word", timeout=1200, pre_call=buffer() + word, arrays={"word": 4}, ptr_requires=False,
          requires=BUFOK + ["__CPROVER_r_ok($0, sizeof(*$0))", VALID, "__CPROVER_POINTER_OFFSET($1) == 0 && __CPROVER_OBJECT_SIZE($1) >= 1 && __CPROVER_OBJECT_SIZE($1) <= 16 && __CPROVER_r_ok($1, __CPROVER_OBJECT_SIZE($1)) && $1[__CPROVER_OBJECT_SIZE($1) - 1] == 0"], assigns=["*$0"],
          loops={1: dict(assigns=["word", "*s", "__verif_exc"],
                         invariant=[LV("*s"), "__verif_exc == 0", "__CPROVER_POINTER_OFFSET(*s) >= __CPROVER_POINTER_OFFSET(__CPROVER_loop_entry(*s))",
@@ -64,10 +64,10 @@ def declare(U):
     U.fn("x_skipWhites", pre_call=buffer(), requires=BUFOK + [VALID], assigns=["*$0"],
          loops={1: dict(assigns=["*s"], invariant=[LV("*s"), "__CPROVER_POINTER_OFFSET(*s) >= __CPROVER_POINTER_OFFSET(__CPROVER_loop_entry(*s))"], decreases=DIST("*s"))},
          ensures=dict(CUR_OK, never_moves_backwards="__CPROVER_POINTER_OFFSET(*$0) >= __CPROVER_POINTER_OFFSET(OLD(*$0))", stops_on_non_white="!(**$0 == ' ' || **$0 == '\\t' || **$0 == '\\n' || **$0 == '\\r')"))
-    U.fn("x_consumeComment", solver=CADICAL, flags=GUARD, pre_call=buffer(), requires=BUFOK + [VALID], assigns=["*$0"],
+    U.fn("x_consumeComment", timeout=1200, solver=CADICAL, flags=GUARD, pre_call=buffer(), requires=BUFOK + [VALID], assigns=["*$0"],
          loops={1: dict(assigns=["*s"], invariant=[LV("*s"), "__verif_exc == 0", "__CPROVER_POINTER_OFFSET(*s) >= __CPROVER_POINTER_OFFSET(__CPROVER_loop_entry(*s))"], decreases=DIST("*s"))},
          ensures=dict(CUR_OK, a_comment_consumes_at_least_five_bytes="IMP(__verif_exc == 0, __CPROVER_POINTER_OFFSET(*$0) >= __CPROVER_POINTER_OFFSET(OLD(*$0)) + 5)"))
-    U.fn("x_skipComment", pre_call=buffer(), requires=BUFOK + [VALID], assigns=["*$0"], ensures=dict(CUR_OK,
+    U.fn("x_skipComment", timeout=1200, pre_call=buffer(), requires=BUFOK + [VALID], assigns=["*$0"], ensures=dict(CUR_OK,
          comment_skipping_consumes_something="IMP(RET && __verif_exc == 0, __CPROVER_POINTER_OFFSET(*$0) > __CPROVER_POINTER_OFFSET(OLD(*$0)))",
          no_comment_no_move="IMP(!RET && __verif_exc == 0, *$0 == OLD(*$0))"))
     two = """
@@ -76,19 +76,19 @@ def declare(U):
   unsigned long in_b = nondet_unsigned_long(), in_e = nondet_unsigned_long(); __CPROVER_assume(in_b <= in_len && in_e <= in_len);
   p_begin = g_buf + in_b; p_end = g_buf + in_e;
 """ % MAXLEN
-    U.fn("x_makeString", solver=CADICAL, flags=GUARD, pre_call=two, arrays={"begin": 1, "end": 1}, ptr_requires=False, requires=BUFOK + [LV("$0"), LV("$1")], assigns=[], ensures={
+    U.fn("x_makeString", timeout=1200, solver=CADICAL, flags=GUARD, pre_call=two, arrays={"begin": 1, "end": 1}, ptr_requires=False, requires=BUFOK + [LV("$0"), LV("$1")], assigns=[], ensures={
         "makeString_reads_only_begin_to_end_and_throws_on_reversed_range": "(__verif_exc != 0) == (__CPROVER_POINTER_OFFSET($0) > __CPROVER_POINTER_OFFSET($1))",
         "only_runtime_error_escapes": "__verif_exc == 0 || __verif_exc == %s" % EXC})
     quoted = buffer() + "  __CPROVER_assume(*o_@0 == '\"' || *o_@0 == '\\'');\n"
-    U.fn("x_parseString", solver=CADICAL, flags=GUARD, pre_call=quoted, requires=BUFOK + [VALID, "**$0 == '\"' || **$0 == '\\''"], assigns=["*$0", "*$1"],
+    U.fn("x_parseString", timeout=1200, solver=CADICAL, flags=GUARD, pre_call=quoted, requires=BUFOK + [VALID, "**$0 == '\"' || **$0 == '\\''"], assigns=["*$0", "*$1"],
          loops={1: dict(assigns=["*s"], invariant=[LV("*s"), "__verif_exc == 0"], decreases=DIST("*s")),
                 2: dict(assigns=["*s"], invariant=[LV("*s"), "__verif_exc == 0"], decreases=DIST("*s"))},
          ensures=dict(CUR_OK, string_parsing_consumes_at_least_the_quotes="IMP(__verif_exc == 0, __CPROVER_POINTER_OFFSET(*$0) >= __CPROVER_POINTER_OFFSET(OLD(*$0)) + 2)"))
-    U.fn("x_parseIdentifier", pre_call=buffer(), requires=BUFOK + [VALID], assigns=["*$0", "*$1"],
+    U.fn("x_parseIdentifier", timeout=1200, pre_call=buffer(), requires=BUFOK + [VALID], assigns=["*$0", "*$1"],
          loops={1: dict(assigns=["*s"], invariant=[LV("*s"), "__verif_exc == 0", "__CPROVER_POINTER_OFFSET(*s) > __CPROVER_POINTER_OFFSET(begin)", LV("begin")], decreases=DIST("*s"))},
          ensures=dict(CUR_OK, identifier_consumes_at_least_one_byte_when_found="IMP(RET && __verif_exc == 0, __CPROVER_POINTER_OFFSET(*$0) > __CPROVER_POINTER_OFFSET(OLD(*$0)))",
                       no_identifier_no_move="IMP(!RET, *$0 == OLD(*$0))"))
-    U.fn("x_parseProp", solver=CADICAL, pre_call=buffer(), requires=BUFOK + [VALID], assigns=["*$0", "*$1", "*$2"], ensures=dict(CUR_OK,
+    U.fn("x_parseProp", timeout=1200, solver=CADICAL, pre_call=buffer(), requires=BUFOK + [VALID], assigns=["*$0", "*$1", "*$2"], ensures=dict(CUR_OK,
          property_consumes_at_least_one_byte_when_found="IMP(RET && __verif_exc == 0, __CPROVER_POINTER_OFFSET(*$0) > __CPROVER_POINTER_OFFSET(OLD(*$0)))",
          no_property_no_move="IMP(!RET && __verif_exc == 0, *$0 == OLD(*$0))"))
     U.fn("x_parseNode", rec=True, timeout=1500, solver=CADICAL, flags=GUARD, pre_call=buffer(), requires=BUFOK + [VALID, "**$0 != 0"], assigns=["*$0"], ghost_entry=["char *g_entry = *$0;"],
@@ -98,7 +98,7 @@ def declare(U):
                 4: dict(assigns=["end"], invariant=[LV("end"), "__CPROVER_POINTER_OFFSET(end) > __CPROVER_POINTER_OFFSET(g_entry)"], decreases="__CPROVER_POINTER_OFFSET(end)")},
          ensures=dict(CUR_OK, a_node_consumes_at_least_its_opening_bracket="IMP(__verif_exc == 0, __CPROVER_POINTER_OFFSET(*$0) > __CPROVER_POINTER_OFFSET(OLD(*$0)))",
                       only_runtime_error_escapes="__verif_exc == 0 || __verif_exc == %s" % EXC))
-    U.fn("x_parseHeader", solver=CADICAL, flags=GUARD, pre_call=buffer(), requires=BUFOK + [VALID], assigns=["*$0"],
+    U.fn("x_parseHeader", timeout=1200, solver=CADICAL, flags=GUARD, pre_call=buffer(), requires=BUFOK + [VALID], assigns=["*$0"],
          loops={1: dict(assigns=["*s", "name", "value", "__verif_exc"], invariant=[LV("*s"), "__verif_exc == 0"], decreases=DIST("*s"))},
          ensures=dict(CUR_OK, only_runtime_error_escapes="__verif_exc == 0 || __verif_exc == %s" % EXC))
     docbuf = """
@@ -106,7 +106,7 @@ def declare(U):
   g_buf = (char *)verif_malloc(in_len + 1); g_end = g_buf + in_len; *g_end = 0;
   p_s = g_buf;
 """ % MAXLEN
-    U.fn("x_parseXML", solver=CADICAL, flags=GUARD, pre_call=docbuf, arrays={"s": 1}, ptr_requires=False, requires=BUFOK + ["__CPROVER_r_ok($0, sizeof(*$0))", "$1 == g_buf"], assigns=["*$0"],
+    U.fn("x_parseXML", timeout=1200, solver=CADICAL, flags=GUARD, pre_call=docbuf, arrays={"s": 1}, ptr_requires=False, requires=BUFOK + ["__CPROVER_r_ok($0, sizeof(*$0))", "$1 == g_buf"], assigns=["*$0"],
          loops={1: dict(assigns=["s", "*doc", "__verif_exc"], invariant=[LV("s"), "__verif_exc == 0"], decreases=DIST("s"))},
          ensures={"parseXML_returns_a_document_or_throws_runtime_error": "__verif_exc == 0 || __verif_exc == %s" % EXC})
 
